@@ -183,21 +183,33 @@ Theorem C07_table_multicursor_group : forall h s e evs,
 Proof. exact live_multicursor_group. Qed.
 Print Assumptions C07_table_multicursor_group.
 
-(* a run of typed characters / backspaces / deletes is undone as one group
-   WHEN the regenerated table classifies those bindings as if_no_repeat (the
-   check reads the flag on every run; today it is false: finding C07-F1) *)
+(* HEADLINE for the grouping clause: in the table regenerated from /repo
+   every typed-character (<any> self-insert), backspace, delete / c-delete and
+   Vi multiple-cursor-insert binding is if_no_repeat, so a maximal run of any
+   one of them - whatever the invocations do to the buffer - is undone by ONE
+   undo, which restores the pre-run text and cursor and leaves exactly the
+   post-run state on the redo stack. *)
 Theorem C07_table_typed_group : forall h s e evs,
-  tbl_group_ok c07_rows = true ->
   is_group_role (lookup c07_rows h) = true ->
   kprev s <> Some h -> Forall (is_key_of h) (e :: evs) -> wf (kbuf s) ->
   let s' := krun c07_rows s (e :: evs) in
   utext (kbuf s') <> utext (kbuf s) ->
-  here (undo (kbuf s')) = here (kbuf s).
+  here (undo (kbuf s')) = here (kbuf s) /\
+  rstack (undo (kbuf s')) = [here (kbuf s')].
 Proof. exact live_typed_group. Qed.
 Print Assumptions C07_table_typed_group.
 
-(* With the bindings as registered at the pinned commit the grouping clause
-   is false for typed characters: "abc", type x y, one undo -> "abcx". *)
+(* every binding of the real table whose handler calls Buffer.undo (emacs
+   c-_ and c-x c-u, Vi u) never snapshots before undoing, so the undo keys do
+   not wipe the redo stack *)
+Theorem C07_table_undo_never_snapshots : forall h,
+  r_act (lookup c07_rows h) = 1 -> r_cls (lookup c07_rows h) = 0.
+Proof. exact live_undo_never_snapshots. Qed.
+Print Assumptions C07_table_undo_never_snapshots.
+
+(* Record of the pinned behaviour (finding C07-F1, repaired in /repo by
+   cbe0478): with the bindings as registered at the pinned commit the grouping
+   clause was false for typed characters: "abc", type x y, one undo -> "abcx". *)
 Theorem C07_typed_group_pinned_refuted :
   exists h s e evs,
     r_role (lookup pinned_rows h) = 1 /\
@@ -207,7 +219,8 @@ Theorem C07_typed_group_pinned_refuted :
 Proof. exact typed_run_one_undo_pinned_refuted. Qed.
 Print Assumptions C07_typed_group_pinned_refuted.
 
-(* With the rows the proposed repair produces it holds. *)
+(* With the hand-recorded rows of the repaired registration it holds (the
+   live-table statement is C07_table_typed_group above). *)
 Theorem C07_typed_group_fixed : forall h s e evs,
   is_group_role (lookup fixed_rows h) = true ->
   kprev s <> Some h -> Forall (is_key_of h) (e :: evs) -> wf (kbuf s) ->
